@@ -761,6 +761,21 @@ def standin_string_views(tier, seed):
         I_ *= other
         if not np.allclose(L.matrix(q), ps.matrix(q) @ other.matrix(q), atol=1e-8) or not np.allclose(R_.matrix(q), other.matrix(q) @ ps.matrix(q), atol=1e-8) or I_.frozen() != R_:
             bad("in-place multiplication is not the matrix product in the documented order", a=ps, b=other)
+        # round 11 (C14_l): a list operand denotes the product of its items in list order (as cirq.PauliString(list) does), on either side
+        o2 = cirq.PauliString({x: rng.choice([cirq.X, cirq.Y, cirq.Z]) for x in rng.sample(q, 2)})
+        o3 = cirq.PauliString({x: rng.choice([cirq.X, cirq.Y, cirq.Z]) for x in rng.sample(q, 1)})
+        for lst in ([other, o2], [other, o2, o3]):
+            cases += 1
+            prod = np.eye(2 ** len(q), dtype=complex)
+            for o_ in lst:
+                prod = prod @ o_.matrix(q)
+            Ll = ps.mutable_copy().inplace_left_multiply_by(list(lst)).frozen()
+            Rl = ps.mutable_copy().inplace_right_multiply_by(list(lst)).frozen()
+            Il = ps.mutable_copy()
+            Il *= list(lst)
+            if (not np.allclose(Ll.matrix(q), ps.matrix(q) @ prod, atol=1e-8) or not np.allclose(Rl.matrix(q), prod @ ps.matrix(q), atol=1e-8) or Il.frozen() != Rl
+                    or not np.allclose(cirq.PauliString(list(lst)).matrix(q), prod, atol=1e-8)):
+                bad("in-place multiplication by a list is not the product of its items in list order", a=ps, items=[str(o_) for o_ in lst])
         m2 = ps.mutable_copy()
         m2[q[0]] = cirq.Y
         del_target = used[0]
